@@ -143,6 +143,14 @@ func c06WriteCorpus(r *core.Run, dir string) (map[string]string, error) {
 		files[rel+"/util.go"] = src
 		classes[c06Mod+"/"+rel] = "same-name"
 	}
+	// every rejecting construct x operand shape (error messages that quote varied source text)
+	ef, ec := c06ErrShapeFiles()
+	for n, src := range ef {
+		files[n] = src
+	}
+	for n, c := range ec {
+		classes[n] = c
+	}
 	return classes, writeModule(dir, c06Mod, nil, files)
 }
 
@@ -518,6 +526,9 @@ func runC06(r *core.Run) (bool, string) {
 			r.Sample(10, map[string]interface{}{"kind": "regrouping", "command": clip(got.iv.cmdline(), 700), "packages": len(pats), "exit_status": got.iv.Code, "files_written": got.tree.names()})
 		}
 	})
+
+	// ---- 2a. the error text of failing packages, alone under several GOMAXPROCS and inside groups of several sizes
+	s.runErrAmplifier()
 
 	// ---- 2b. shapes of the pattern list (repeated / overlapping / nested / respelled / reordered patterns)
 	s.runShapes()
